@@ -1066,7 +1066,7 @@ def vec_model(eng, ctx, cp, self_ty, trait, m, args):
     if m == "truncate" and v.elems is not None and not is_sym(args[1].v):
         del v.elems[int(args[1].v):]
         return UNIT
-    if m == "contains" and v.elems is not None:
+    if m == "contains" and v.elems is not None and v.kind not in ("str", "string"):
         x = deref(args[1])
         conds = []
         for e in v.elems:
@@ -1519,6 +1519,8 @@ def decode_chars(ctx, v):
                 conds.append(z3.And(z3.UGE(b.v, 0xC0), z3.ULT(b.v, 0xE0)))
             if i + 2 < len(el):
                 conds.append(z3.And(z3.UGE(b.v, 0xE0), z3.ULT(b.v, 0xF0)))
+            if i + 3 < len(el):
+                conds.append(z3.UGE(b.v, 0xF0))
             k = 1 + ctx.choose_cond(conds, "utf8-lead")
         bs = [z3.ZeroExt(24, bv(x)) for x in el[i:i + k]]
         if k == 1:
@@ -1542,7 +1544,7 @@ def str_slice(v, a, b):
 
 def str_trim(ctx, r, front=True, back=True):
     """`str::trim[_start|_end]`: removes Unicode White_Space characters (exact on what the text
-    bound allows: all of UTF-8 for <= 3 bytes, ASCII beyond)."""
+    bound allows: all of UTF-8 for <= 5 bytes, ASCII beyond)."""
     v = deref(r)
     chars = decode_chars(ctx, v)
     i, j = 0, len(chars)
